@@ -139,6 +139,12 @@ ToPat(p)   == [kind |-> "handler", pat |-> p]
 (*      the name lies strictly below M: M encloses it either as its zone or   *)
 (*      as its child; the statement does not say which -- M and M's nearest   *)
 (*      registered proper ancestor are both admitted.            \* AMBIG     *)
+\* The readings admitted for a DS question strictly below the longest match M (see above).  "closest": M itself, the
+\* zone on the parent side of a cut at that name (RFC 4035 3.1.4.1 applied to the name asked for); "parent-of-closest":
+\* the nearest registered proper ancestor of M (what serve_mux.go's comment describes).  Whoever owns the statement may
+\* strike one of the two here; nothing else has to change.
+DSBelowReadings == {"closest", "parent-of-closest"}
+
 RouteSet(PS, q, t) ==
   LET S == Matching(PS, q) IN
   IF S = {} THEN {Refused}
@@ -147,7 +153,8 @@ RouteSet(PS, q, t) ==
     ELSE LET A == ProperAnc(PS, M) IN
       IF A = {} THEN {ToPat(M)}
       ELSE IF Len(M) = Len(q) THEN {ToPat(LongestOf(A))}
-      ELSE {ToPat(M), ToPat(LongestOf(A))}            \* AMBIG
+      ELSE { ToPat(M) : x \in DSBelowReadings \cap {"closest"} }
+           \cup { ToPat(LongestOf(A)) : x \in DSBelowReadings \cap {"parent-of-closest"} }            \* AMBIG
 
 \* classification of a routing case (used in finding keys only)
 RouteClass(PS, q, t) ==
